@@ -58,6 +58,8 @@ def c14(groups, f64=False):
                     x = f64_of_bits(a)
                     c = float(clip.numerator) / float(clip.denominator)
                     exp = bits_of_f64(max(x, c) if name == "Gte" else min(x, c))
+                    if x == c:
+                        exp = "skip" if po[t] in (bits_of_f64(x), bits_of_f64(c)) else bits_of_f64(c)     # +-0 against a zero clip: either zero is max / min
                 else:
                     exp = max(a, clip) if name == "Gte" else min(a, clip)
             elif name == "Tanh":
@@ -70,7 +72,10 @@ def c14(groups, f64=False):
                     exp = "some"
             elif name == "Echo":
                 x = p.inputs()[t]
-                exp = bits_of_f64(float(x.numerator) / float(x.denominator)) if f64 else x
+                if isinstance(x, str):
+                    exp = int(x[1:], 16)        # raw f64 bit pattern
+                else:
+                    exp = bits_of_f64(float(x.numerator) / float(x.denominator)) if f64 else x
             elif name == "Const":
                 c = p.desc[1]
                 exp = bits_of_f64(float(c.numerator) / float(c.denominator)) if f64 else c
@@ -157,8 +162,12 @@ def shrink_spec(c, f, t, budget=60):
         got = k.outs()
         if any(isinstance(g, str) for g in got):
             return False
-        exp = f(ys)
+        try:
+            exp = f(ys)
+        except (ZeroDivisionError, ValueError, ArithmeticError):
+            return False          # the candidate left the specification's domain (e.g. a zero for Drawdown / LnReturn)
         return any(e != "skip" and e != g for e, g in zip(exp, got)), k
+    positive = c.desc[0] in ("Drawdown", "LnReturn") or "Drawdown" in d_sexpr(c.desc) or "LnReturn" in d_sexpr(c.desc)
     best = None
     r = fails(xs)
     if not r or not r[0]:
@@ -177,7 +186,7 @@ def shrink_spec(c, f, t, budget=60):
         if n >= budget:
             break
         for v in (F(0), F(1), F(round(xs[i]))):
-            if v == xs[i]:
+            if v == xs[i] or (positive and v <= 0):
                 continue
             n += 1
             ys = xs[:i] + [v] + xs[i + 1:]
